@@ -23,7 +23,7 @@ OUT = storage.PREFIX + 'out.sgz'
 SRC = storage.PREFIX + 'src.sgz'
 
 OPENER_CYCLE = ['path', 'handle', 'preload', 'blob', 'emulator', 'ccs1', 'path', 'blob_preload', 'handle',
-                'emulator_blob', 'preload', 'xarray', 'path']
+                'emulator_blob', 'preload', 'xarray', 'path', 'handle_nofd']
 
 ASSUMPTIONS = [
     'crash model = what C18 states: any prefix of the OS-level write sequence (what CPython buffering actually '
@@ -36,8 +36,8 @@ ASSUMPTIONS = [
     'starts at or beyond the end and returns the available bytes otherwise',
     'get_source_data_hash()/__str__ are not in the battery (the digest is patched in last by construction: C20)',
     f'library version reported to the writer is stubbed to {env.STUB_VERSION}',
-    'every converter run is made under the strictly sequential schedule and repeated under three seeded schedules '
-    '(random, PCT, slow I/O); where the OS-level write sequence differs its crash prefixes are examined too (the final '
+    'every converter run is made under the strictly sequential schedule and repeated under four seeded schedules '
+    '(random, PCT, slow I/O, random with line-level pre-emption); where the OS-level write sequence differs its crash prefixes are examined too (the final '
     'bytes are schedule independent by C16, the order of the OS-level writes need not be)',
 ]
 
@@ -138,7 +138,8 @@ def run_writer(item, wfault=None):
         chooser = core.SeqChooser()
     if wfault is not None:
         fs.wfault = {'k': wfault[0], 'kind': wfault[1], 'n': 0, 'fired': 0}
-    r = env.run_sim(fn, fs, chooser, step_cap=10 ** 6)
+    pre = (0.002, f"{item.get('wseed', 0)}:{item['id']}", 0.3) if item.get('wpre') else None
+    r = env.run_sim(fn, fs, chooser, step_cap=10 ** 6, preempt=pre)
     readers.clear_caches()
     if wfault is not None:
         if not fs.wfault['fired']:
@@ -455,8 +456,9 @@ def one_item(ctx, item):
         # the same conversion under other schedules: where the bytes reach the OS in another order, the
         # prefixes of that order are crash states too
         shape_of = lambda log: [(e[1], e[3], e[4], len(e[5])) for e in log if e[3] not in ('fsync', 'initial')]
-        for j, pol in enumerate(('random', 'pct2', 'ioslow')):
-            alt = dict(item, wsched=pol, wseed=f"{item.get('wseed', 0)}:{j}")
+        for j, pol in enumerate(('random', 'pct2', 'ioslow', 'random')):
+            # (the fourth also pre-empts at source-line level, in bursts after intercepted operations)
+            alt = dict(item, wsched=pol, wseed=f"{item.get('wseed', 0)}:{j}", wpre=(j == 3))
             final2, oslog2 = run_writer(alt)
             if final2 is None or final2 != final or shape_of(oslog2) == shape_of(oslog):
                 continue             # (different final bytes are C16's finding, not examined here)
@@ -550,7 +552,7 @@ def replay_doc(doc, scratch):
         raise common.HarnessFailure('writer of the replayed item failed')
     if '@' in str(doc['image'][0]):           # image of a run under another schedule: policy:index
         pol, j = doc['image'][0].split('@')[1].split(':')
-        _, oslog = run_writer(dict(item, wsched=pol, wseed=f"{item.get('wseed', 0)}:{j}"))
+        _, oslog = run_writer(dict(item, wsched=pol, wseed=f"{item.get('wseed', 0)}:{j}", wpre=(j == '3')))
     m = filelib.read_meta(final)
     call = doc['call']
     kind = readers.OPENERS[doc['opener']]['kind']
